@@ -28,6 +28,7 @@ LEVEL_TEXT = (
     "against a freshly built model, a snapshot (rejected edits) and a name-space reference. Exhaustive for the "
     "alphabet and depth; longer histories and other argument values are not explored."
     ' The alphabet has grown to ~118 operations (queries that simulate and read a result, conversions parameter<->variable with explicit numbers, reactions declared from one shared dictionary); further rules on every transition: a query leaves the content unchanged, an edit changes only the reactions it names, a conversion keeps (or takes the given) value; eight long walks through the whole alphabet.'
+    ' Also: plural adds whose bad entry is a name held by a component of another kind.'
 )
 LEVEL_NOTE = "trusted: deepcopy of Model preserves its state (asserted by replay-key equality), the rebuild-through-public-API oracle, exception classes (not messages) are compared"
 RULE = (
